@@ -48,6 +48,8 @@ for tag in sorted(m):
         ownr = ', '.join(res[own]['rules']); n_own += 1
     elif meta.get('declined'):
         ownr = '**not reported** (declined clause, 10.6)'
+    elif meta.get('known_miss'):
+        ownr = '**MISSED** (known, 10.6)'
     else:
         ownr = '**MISSED**' + (' (exit 2)' if own in err2 else '')
     out.append("| %s | %s | %s: %s | %s |" % (tag, first_line(tag), own, ownr, ' '.join(q for q in fired if q != own)))
